@@ -27,6 +27,8 @@ func poisonKinds(ps []string) string {
 			m["serves-wrong-body-after-genuine"] = true
 		case strings.HasPrefix(p, "persisted body"):
 			m["persisted-wrong-body-after-genuine"] = true
+		case strings.HasPrefix(p, "after the chain grew"):
+			m["wrong-body-after-growth"] = true
 		case strings.HasPrefix(p, "child of the genuine"):
 			m["child-not-accepted"] = true
 		default:
